@@ -73,6 +73,10 @@ def check_C09(tier, seed):
     suites.append(run_suite("C09", gen.trait_access(shapes, z["L"]), ["debug", "release"], [mon_c09], "access", compare_model=MODEL_C09))
     hist = [gen.to_trait(s) for s in gen.vec_boundary(shapes, min(z["L"], 3), with_masks=False) + gen.vec_random(shapes, z["nrand"], z["nops"], seed)]
     suites.append(run_suite("C09", hist, ["debug", "release"], [mon_c09], "history", compare_model=MODEL_C09))
+    # the provided methods of the traits (sort_by / sort_by_key on SoAVec and SoASliceMut) and apply_index, through trait dispatch
+    tsort = [s for s in gen.sort_scenarios(["One", "Two", "NMid"] if tier == "quick" else shapes, 3 if tier == "quick" else 4, seed, nrandom=6, max_random_len=40)
+             if any((" tsm_" in l) or (" tvec_" in l) or l.startswith("apply_index") for l in s.lines)]
+    suites.append(run_suite("C09", tsort, ["debug", "release"], [mon_c09], "trait-sort", compare_model=MODEL_C09))
     def widen():
         yield run_suite("C09", gen.trait_access(shapes, 6), ["debug", "release"], [mon_c09], "widen-access", compare_model=False)
     return finish("C09", tier, seed, t0, "proof", proof, suites, [mon_c09], widen=widen)
